@@ -85,22 +85,45 @@ func (a *Analysis) ruleW() {
 	// ---- main: ranges over the table, passes (key, value) in that order, stops on error
 	var upd *ssa.Function
 	okMain := false
-	for _, c := range callsIn(mainFn) {
+	// the driver loop is in main or in a function main (transitively) calls (`func run() error`)
+	// (breadth first from main: the driver is the function nearest to main that calls a
+	// two-argument function of the generator from which the template is executed; what that
+	// function calls in turn are steps of the update, not drivers)
+	isUpdateCall := func(c ssa.CallInstruction) bool {
 		callee := c.Common().StaticCallee()
-		if callee == nil || callee.Pkg != a.P.Gen || len(c.Common().Args) != 2 {
-			continue
+		if callee == nil || callee.Pkg != a.P.Gen || len(c.Common().Args) != 2 || callee == c.Parent() {
+			return false
 		}
-		hasExec := false
 		for f := range a.reachableFrom(callee) {
 			for _, cc := range callsIn(f) {
 				if n := calleeName(cc); n == "(*html/template.Template).Execute" || n == "(*text/template.Template).Execute" {
-					hasExec = true
+					return true
 				}
 			}
 		}
-		if !hasExec {
-			continue // some other helper of the generator
+		return false
+	}
+	var driverCalls []ssa.CallInstruction
+	level := []*ssa.Function{mainFn}
+	visited := map[*ssa.Function]bool{mainFn: true}
+	for depth := 0; depth < 6 && len(level) > 0 && len(driverCalls) == 0; depth++ {
+		sort.Slice(level, func(i, j int) bool { return fnKey(level[i]) < fnKey(level[j]) })
+		var next []*ssa.Function
+		for _, f := range level {
+			for _, c := range callsIn(f) {
+				if isUpdateCall(c) {
+					driverCalls = append(driverCalls, c)
+				}
+				if g := c.Common().StaticCallee(); g != nil && a.isModuleFunc(g) && len(g.Blocks) > 0 && !visited[g] {
+					visited[g] = true
+					next = append(next, g)
+				}
+			}
 		}
+		level = next
+	}
+	for _, c := range driverCalls {
+		callee := c.Common().StaticCallee()
 		if lk, ok := c.Common().Args[1].(*ssa.Lookup); ok && !lk.CommaOk && lk.Index == c.Common().Args[0] && loadedGlobal(lk.X) == tableVar {
 			// update(stem, table[stem]): the pair is an entry of the table whatever the stem is
 			upd = callee
@@ -143,38 +166,96 @@ func (a *Analysis) ruleW() {
 	a.ruleW2(upd)
 }
 
-// checkMainStops: main terminates the run when the update call c fails.
+// checkMainStops: the run terminates when the update call c fails — the failing edge of the
+// test of its error ends in log.Fatal / os.Exit / panic, or returns a non-nil error to a
+// caller that (recursively) does the same.
 func (a *Analysis) checkMainStops(c ssa.CallInstruction) {
 	r := a.R
-	// error stops the run
-	stops := false
-	if call, ok := c.(*ssa.Call); ok {
-		for _, ref := range *call.Referrers() {
+	var stops func(c ssa.CallInstruction, depth int) bool
+	stops = func(c ssa.CallInstruction, depth int) bool {
+		call, ok := c.(*ssa.Call)
+		if !ok || depth > 4 {
+			return false
+		}
+		res := call.Call.Signature().Results()
+		var ev ssa.Value = call
+		if res.Len() > 1 {
+			ev = nil
+			for _, ref := range *call.Referrers() {
+				if ex, ok := ref.(*ssa.Extract); ok && ex.Index == res.Len()-1 {
+					ev = ex
+				}
+			}
+		}
+		if ev == nil {
+			return false
+		}
+		fn := call.Parent()
+		found := false
+		for _, ref := range *ev.Referrers() {
+			// `return update(...)` / `return err`: the error goes to the caller as it is
+			if ret, ok := ref.(*ssa.Return); ok {
+				_ = ret
+				all, any := true, false
+				for _, site := range a.Ef.callSites(fn) {
+					any = true
+					if !stops(site, depth+1) {
+						all = false
+					}
+				}
+				if any && all {
+					found = true
+				}
+				continue
+			}
 			bo, ok := ref.(*ssa.BinOp)
 			if !ok || bo.Op != token.NEQ {
 				continue
 			}
 			for _, br := range *bo.Referrers() {
-				if ifi, ok := br.(*ssa.If); ok {
-					if len(ifi.Block().Succs[0].Preds) != 1 {
-						r.Bad("W2", "main/stop-on-error", a.P.InstrPos(ifi), "", "main's fatal branch is also reached when the update did not fail (the error test is combined with another condition): some lists would not be regenerated")
-					}
-					for _, in := range ifi.Block().Succs[0].Instrs {
-						if cc, ok := in.(ssa.CallInstruction); ok {
-							n := calleeName(cc)
-							if strings.HasPrefix(n, "log.Fatal") || n == "os.Exit" || strings.HasPrefix(n, "log.Panic") || n == "panic" {
-								stops = true
-							}
+				ifi, ok := br.(*ssa.If)
+				if !ok {
+					continue
+				}
+				errSucc := ifi.Block().Succs[0]
+				if len(errSucc.Preds) != 1 {
+					r.Bad("W2", "main/stop-on-error", a.P.InstrPos(ifi), "", "the fatal branch is also reached when the update did not fail (the error test is combined with another condition): some lists would not be regenerated")
+				}
+				for _, in := range errSucc.Instrs {
+					if cc, ok := in.(ssa.CallInstruction); ok {
+						n := calleeName(cc)
+						if strings.HasPrefix(n, "log.Fatal") || n == "os.Exit" || strings.HasPrefix(n, "log.Panic") || n == "panic" {
+							found = true
 						}
-						if _, ok := in.(*ssa.Panic); ok {
-							stops = true
+					}
+					if _, ok := in.(*ssa.Panic); ok {
+						found = true
+					}
+					if ret, ok := in.(*ssa.Return); ok && len(ret.Results) > 0 {
+						v := returnedValue(ret, len(ret.Results)-1)
+						isErr := v == ev
+						if cv, ok := v.(*ssa.Call); ok && (calleeName(cv) == "fmt.Errorf" || calleeName(cv) == "errors.New") {
+							isErr = true
+						}
+						if isErr {
+							all, any := true, false
+							for _, site := range a.Ef.callSites(fn) {
+								any = true
+								if !stops(site, depth+1) {
+									all = false
+								}
+							}
+							if any && all {
+								found = true
+							}
 						}
 					}
 				}
 			}
 		}
+		return found
 	}
-	r.Check(stops, "W2", "main/stop-on-error", a.P.InstrPos(c), "", "main stops when an update fails", "main carries on after a failed update: a truncated or missing list file could be committed")
+	r.Check(stops(c, 0), "W2", "main/stop-on-error", a.P.InstrPos(c), "", "the run stops when an update fails", "the run carries on after a failed update: a truncated or missing list file could be committed")
 }
 
 // reachableFrom: fn and the module functions it (transitively) calls statically.
@@ -652,10 +733,15 @@ func (a *Analysis) ruleW2(upd *ssa.Function) {
 		}
 		// this exit may report success.  If what it returns is the error of one call, handed on
 		// untested, it reports success exactly when that call succeeded: judge the state so refined.
-		state := x.State
-		if ev.Kind == ekFrom && ev.Site != nil {
-			state = x.State.clone()
-			e.applyOutcome(state, ev.Site, true)
+		state := x.State.clone()
+		for cur := &ev; cur != nil; cur = cur.Else {
+			// "the error of s if s failed, else …" is nil only if s succeeded and … is nil
+			if (cur.Kind == ekFrom || cur.Kind == ekCond) && cur.Site != nil {
+				e.applyOutcome(state, cur.Site, true)
+			}
+			if cur.Kind != ekCond {
+				break
+			}
 		}
 		rendered := false
 		for _, site := range sites {
@@ -663,13 +749,12 @@ func (a *Analysis) ruleW2(upd *ssa.Function) {
 			if !ok {
 				continue // not executed on the way to this exit
 			}
-			isRet := ev.Kind == ekFrom && ev.Site == site
 			b, _ := c.V.(BoolV)
 			succeeded := b.Known && b.Val
-			if site == execRec.Instr && (succeeded || isRet) {
+			if site == execRec.Instr && succeeded {
 				rendered = true
 			}
-			if succeeded || isRet {
+			if succeeded {
 				continue
 			}
 			okErr = false
